@@ -11,10 +11,16 @@ def emit_and_check(ctx, name, module, cfg, timeout=3000):
     res = c.tlc_must_pass(ctx, name, module, cfg, timeout=timeout)
     path = ctx.path("scn-%s.ndjson" % name)
     n = 0
+    cov = ctx.extra.setdefault("model_paths_behaviours", {})     # code path (ghost variable `paths`) -> number of behaviours taking it
     with open(path, "w") as f:
         for payload in res.printed.get("SCN", []):
-            f.write(json.loads(payload) + "\n")
+            line = json.loads(payload)
+            f.write(line + "\n")
             n += 1
+            i = line.find('"paths":[')
+            if i >= 0:
+                for t in json.loads(line[i + 8:line.index("]", i) + 1]):
+                    cov[t] = cov.get(t, 0) + 1
     return path, n
 
 
@@ -83,6 +89,14 @@ def run_lc(ctx, prop, emit_cfgs, mc_cfgs, driver_args, clean_cfgs=(), what=""):
                 "streams whose final table has >= 2 lifecycles (or that panicked) - counted from the traces only, the fast-path "
                 "behaviours are not included")
     ctx.exhaustive = True
+    # vacuity: with zero drift the model's paths are the code's paths; the release paths and both merge variants must have been
+    # taken by some replayed behaviour of this run (else the bounded-exhaustive claim would not cover them)
+    if emit_cfgs:
+        need = ["confirmed", "release-after-confirm-send1", "enqueue", "forward-direct-send3", "final-publish", "final-flush",
+                "upd-new", "upd-absorb"]
+        miss = [t for t in need if not ctx.extra.get("model_paths_behaviours", {}).get(t)]
+        if miss:
+            raise c.ToolError("vacuity: no replayed behaviour takes the code paths %s" % miss)
     ctx.extra.update({"replay": stats, "design_conformance": {"behaviours": stats["replayed"], "mismatches": stats["drift"]},
                       "drift_samples": drift_samples[:2], "what": what})
     for k in list(cases)[-3:]:
